@@ -114,7 +114,7 @@ def check_crop_and_pad_keep(case, viol):
     kps = [tuple(k) for k in case['keypoints']]
     pipe = A.ReplayCompose([A.CropAndPad(px=tuple(case['px']), keep_size=True, interpolation=0, p=1.0)],
                            keypoint_params=A.KeypointParams('xyzas', angle_in_degrees=False, remove_invisible=False))
-    random.seed(case['seed'])
+    R.seed(case['seed'])
     try:
         res = pipe(image=img, keypoints=kps)
     except Exception as e:  # noqa
@@ -161,7 +161,7 @@ def check_rotation(case, viol):
 
 def gen_case(rng):
     shape = S.random_shape(rng)
-    return {'shape': list(shape), 'keypoints': S.random_kps(rng, shape), 'seed': rng.randint(0, 10 ** 6)}
+    return {'shape': list(shape), 'keypoints': S.random_kps(rng, shape), 'seed': R.pick_seed(rng)}
 
 
 def run(seed=0, tier='quick', hints=None, broken=False):
